@@ -64,7 +64,7 @@ theorem C18_text_field_reads_back_all (s : Str) (unq tri : Bool) (limit : Nat)
     ∃ body : Str,
       (∀ c : Ctx, writeText c s (Lemmas.WriterChar.charFlags (analyze s unq tri limit)).1 (Lemmas.WriterChar.charFlags (analyze s unq tri limit)).2
           = .ok (a!"\n;" ++ body ++ a!"\n;", { c with lastColumn := 1 })) ∧
-      (∀ (c : Ctx) (q : Bool), c.isCif1 = false → unq = (!q) → tri = true → limit = LINE →
+      (∀ (c : Ctx) (q : Bool), c.isCif1 = false → unq = (!q) → tri = true → limit = LINE → Model.hasDisallowed s = false →
           writeChar c s q true = .ok (a!"\n;" ++ body ++ a!"\n;", { c with lastColumn := 1 })) ∧
       decodeText true true body = s ∧
       (∀ (w0 : List WsAtom) (ctx : Str) (line col : Nat) (lt : TokType) (pol : Policy) (log : List Report),
@@ -124,8 +124,9 @@ theorem C18_text_field_reads_back_all (s : Str) (unq tri : Bool) (limit : Nat)
       = .ok (a!"\n;" ++ body ++ a!"\n;", { c with lastColumn := 1 }) := by
     intro c; simp [writeText, hb, TEXT_CLOSE]
   refine ⟨body, hwt, ?_, hdec, ?_⟩
-  · intro c q hc2 hq ht hl
+  · intro c q hc2 hq ht hl hdis
     subst hq ht hl
+    rw [Lemmas.WriterChar.writeChar_clean c s q true (Lemmas.WriterChar.strClean_of _ s hcr (fun _ => hdis))]
     have hv : ¬(c.isCif1 = true ∧ validate11 s = false) := by simp [hc2]
     have ha' : analyze s (!q) (!c.isCif1) LINE = a := by rw [hc2]; exact ha
     have hd' : (analyze s (!q) (!c.isCif1) LINE).delimLength = 2 := by rw [ha']; exact hd
@@ -180,8 +181,8 @@ theorem C18_text_field_reads_back_all (s : Str) (unq tri : Bool) (limit : Nat)
       exact posAfter_col_indep _ _ _ _
     have hfitv : linesFit (posAfter line col (renderWs (w0 ++ [WsAtom.eol]))).2 (renderValue .text body) = true := by
       rw [hcolEq]; exact hf2.2
-    have hstart : startOk .text body (posAfter line col (renderWs (w0 ++ [WsAtom.eol]))).2 = true := by
-      rw [hcolEq]; simp [startOk, posAfter]
+    have hstart : Spec.Lexical.startOk .text body (posAfter line col (renderWs (w0 ++ [WsAtom.eol]))).2 = true := by
+      rw [hcolEq]; simp [Spec.Lexical.startOk, posAfter]
     have hatoms : ∀ x ∈ w0 ++ [WsAtom.eol], x.ok .cif2 = true := by
       intro x hx
       rcases List.mem_append.mp hx with h1 | h1
@@ -215,7 +216,7 @@ example : (analyze (a!"'''\"\"\"\n;x") true true Model.Writer.LINE).delimLength 
 example : ∃ body, Model.Writer.writeChar {} (a!"'''\"\"\"\n;x") false true = .ok (a!"\n;" ++ body ++ a!"\n;", { lastColumn := 1 }) ∧
     Model.Decode.decodeText true true body = (a!"'''\"\"\"\n;x") := by
   obtain ⟨body, _, h2, h3, _⟩ := C18_text_field_reads_back_all (a!"'''\"\"\"\n;x") true true Model.Writer.LINE (by decide) (by decide)
-  exact ⟨body, h2 {} false rfl rfl rfl rfl, h3⟩
+  exact ⟨body, h2 {} false rfl rfl rfl rfl (by decide), h3⟩
 example : Model.Writer.textBody (a!"'''\"\"\"\n;x") false true = .ok (a!"> \\\n> '''\"\"\"\n> ;x") := by rfl
 /-- a reserved start (first line ends in a backslash): folding is switched on -/
 example : (analyze (a!"ab\\\ncd") true false 2048).delimLength = 2 ∧ (analyze (a!"ab\\\ncd") true false 2048).hasReservedStart = true := by decide
